@@ -18,7 +18,7 @@ if ! git apply $SRC/patch.diff >>$LOG 2>&1; then echo "$ID: patch does not apply
 res_build=FAIL; (go build ./... && go vet ./...) >>$LOG 2>&1 && res_build=PASS
 res_suite=FAIL; (go test -count=1 -vet=off ./...) >>$LOG 2>&1 && res_suite=PASS
 [ $res_suite = FAIL ] && { (go test -count=1 -vet=off ./...) >>$LOG 2>&1 && res_suite=PASS; }
-git diff > /tmp/vb/$ID.patch
+cp $SRC/patch.diff /tmp/vb/$ID.patch
 echo "$ID: build_vet=$res_build suite=$res_suite"
 if [ $res_build = PASS ] && [ $res_suite = PASS ]; then
   D=/verif/benign/$ID; mkdir -p $D
